@@ -42,6 +42,8 @@ def point_malformations(X, fitted_d=None, with_pre=False):
     n, d = X.shape
     m = {}
     m['ndim0'] = np.float64(1.5)
+    m['ndim0_python_float'] = 1.5
+    m['ndim0_0d_ndarray'] = np.array(1.5)
     if not with_pre:
         m['ndim1'] = X[:, 0].copy()
     m['ndim3'] = X.reshape(n, 1, d).repeat(2, axis=1) if False else np.stack([X, X], axis=1)
@@ -73,6 +75,8 @@ def tuple_malformations(T, fitted_d=None, with_pre=False):
     n, t, d = T.shape
     m = {}
     m['ndim0'] = np.float64(1.5)
+    m['ndim0_python_float'] = 1.5
+    m['ndim0_0d_ndarray'] = np.array(1.5)
     m['ndim1'] = T[:, 0, 0].copy()
     if not with_pre:
         m['ndim2'] = T[:, :, 0].copy()
@@ -177,13 +181,23 @@ def run_case(spec):
         est = zoo.make(name, ds, **over)
         evals += expect_value_error(viol, sigs, name + '.fit', 'length_mismatch_long_y', pre, est.fit, args[0], np.r_[y, y[:1]])
         if kind == 'pairs':
-            for lab, val in (('label_0', 0), ('label_2', 2), ('label_half', 0.5)):
+            for lab, val in (('label_0', 0), ('label_2', 2), ('label_half', 0.5), ('label_1.000001', 1.000001), ('label_-0.999995', -0.999995)):
                 yb = y.astype(float).copy()
                 yb[1] = val
                 est = zoo.make(name, ds, **over)
                 evals += expect_value_error(viol, sigs, name + '.fit', lab, pre, est.fit, args[0], yb)
             yb = np.where(y == 1, 1, 0)
             evals += expect_value_error(viol, sigs, name + '.fit', 'labels_01', pre, zoo.make(name, ds, **over).fit, args[0], yb)
+    # NaN / inf in a row that carries the UNKNOWN label (no constraint will ever use it): still malformed data
+    if kind == 'class' and name.endswith('_Supervised'):
+        for mal, val in (('nan_in_unlabeled_row', np.nan), ('inf_in_unlabeled_row', np.inf)):
+            for pos in (0, len(base) // 2, len(base) - 1):
+                Xb = base.copy()
+                Xb[pos, -1] = val
+                yb = np.asarray(args[1]).copy()
+                yb[pos] = -1
+                est = zoo.make(name, ds, **over)
+                evals += expect_value_error(viol, sigs, name + '.fit', '%s@%d' % (mal, pos), pre, est.fit, Xb, yb)
     # n_components
     if 'n_components' in zoo.cls(name)().get_params():
         for nc in (0, -1, d + 1):
@@ -228,7 +242,7 @@ def run_case(spec):
             else:
                 evals += expect_value_error(viol, sigs, name + '.score', mal, pre, est.score, bad)
         if kind == 'pairs':
-            for lab, val in (('label_0', 0), ('label_2', 2), ('label_half', 0.5)):
+            for lab, val in (('label_0', 0), ('label_2', 2), ('label_half', 0.5), ('label_1.000001', 1.000001), ('label_-0.999995', -0.999995)):
                 yb = yq.astype(float).copy()
                 yb[1] = val
                 for strat in (dict(strategy='accuracy'), dict(strategy='f_beta', beta=1.0), dict(strategy='max_tpr', min_rate=0.5),
